@@ -1133,6 +1133,7 @@ pub const BUGS: &[&str] = &[
     "gray-odd-bytes",
     "empty-cel",
     "dangling-user-data",
+    "tilemap-huge-extent",
 ];
 
 fn ensure_tilemap(s: &mut SpriteSpec, r: &mut Rng) -> usize {
@@ -1822,6 +1823,64 @@ pub fn apply_bug(s: &mut SpriteSpec, bug: &str, r: &mut Rng, scale: usize) -> St
                 pixels.clear();
             }
             "cel with a zero dimension".into()
+        }
+        "tilemap-huge-extent" => {
+            // a tilemap whose extent in pixels exceeds i32: 32770 tiles x 65535 px
+            let horizontal = r.chance(1, 2);
+            s.tilesets.clear();
+            s.layers.retain(|l| l.kind != 2);
+            let keep: Vec<u16> = (0..s.layers.len() as u16).collect();
+            s.cels.retain(|c| keep.contains(&c.layer) && !matches!(c.body, CelBody::Tilemap { .. }));
+            let dom = {
+                let d = index_domain(s);
+                if d.is_empty() {
+                    vec![0]
+                } else {
+                    d
+                }
+            };
+            let px = if s.fmt == Fmt::Indexed { vec![dom[0]; 2 * 65535] } else { vec![7u8; 2 * 65535 * bpp] };
+            s.tilesets.push(TilesetSpec {
+                id: 0,
+                flags: 6,
+                count: 2,
+                tw: if horizontal { 65535 } else { 1 },
+                th: if horizontal { 1 } else { 65535 },
+                base_index: 1,
+                name: "wide".into(),
+                pixels: px,
+                level: 9,
+                ext: (0, 0),
+            });
+            let li = s.layers.len();
+            s.layers.push(LayerSpec {
+                flags: 1,
+                kind: 2,
+                tileset: 0,
+                level: 0,
+                blend: 0,
+                opacity: 255,
+                name: "huge".into(),
+                ud: None,
+            });
+            s.cels.push(CelSpec {
+                frame: 0,
+                layer: li as u16,
+                x: 0,
+                y: 0,
+                opacity: 255,
+                body: CelBody::Tilemap {
+                    w: if horizontal { 32770 } else { 1 },
+                    h: if horizontal { 1 } else { 32770 },
+                    bits: 32,
+                    masks: [0x1fff_ffff, 0x8000_0000, 0x4000_0000, 0x2000_0000],
+                    tiles: vec![1; 32770],
+                    level: 9,
+                },
+                ud: None,
+                extra: false,
+            });
+            format!("tilemap of 32770 tiles of 65535 px ({})", if horizontal { "horizontal" } else { "vertical" })
         }
         "dangling-user-data" => {
             // user data in a file with no preceding attachable entity
